@@ -10,6 +10,7 @@ import (
 	"math"
 	"os"
 	"sort"
+	"testing"
 	"time"
 
 	"github.com/snower/slock/protocol"
@@ -666,4 +667,59 @@ func vfC19Replay(env *vfEnv, part *vfPart, cl *vfC19Cluster) {
 		live += vfC19RunAndJudge(env, part, cl, p, 1000+rpt, true)
 	}
 	fmt.Printf("NOTE: replay of case %d: the case parameters were executed %d more times against a live server: %d finding(s)\n", p.Case, reps, live)
+}
+
+// TestVerifC19Plan prints the parameters of one case (debugging aid):
+// VERIF_C19_PLAN=seed:case.
+func TestVerifC19Plan(t *testing.T) {
+	var seed int64
+	var c int
+	if n, _ := fmt.Sscanf(os.Getenv("VERIF_C19_PLAN"), "%d:%d", &seed, &c); n != 2 {
+		return
+	}
+	b, _ := json.MarshalIndent(vfC19Gen(seed, c), "", " ")
+	fmt.Println(string(b))
+}
+
+// TestVerifC19Demo: deterministic demonstrations used by /verif/proposed/C19-*.md
+// (VERIF_C19_DEMO=event): two default-clear Event.Wait calls, no Set at all; the
+// first one times out after 1 s; the second one (10 s) must not return success.
+func TestVerifC19Demo(t *testing.T) {
+	if os.Getenv("VERIF_C19_DEMO") != "event" {
+		return
+	}
+	env := vfGetEnv("C19")
+	cl, err := vfC19GetCluster(env)
+	if err != nil {
+		fmt.Println("cannot start:", err)
+		return
+	}
+	if cl.follower != nil {
+		defer cl.follower.Kill()
+	}
+	key := vfKey16("c19-demo-event")
+	db := cl.ctl.SelectDB(0)
+	type out struct {
+		who string
+		res string
+		d   time.Duration
+	}
+	ch := make(chan out, 2)
+	t0 := time.Now()
+	wait := func(who string, timeout uint32) {
+		e := db.Event(key, 5, 600, false)
+		_, err := e.Wait(timeout)
+		r := "SUCCESS"
+		if err != nil {
+			r = "error: " + err.Error()
+		}
+		ch <- out{who, r, time.Since(t0)}
+	}
+	go wait("Wait(1 s)", 1)
+	time.Sleep(100 * time.Millisecond)
+	go wait("Wait(10 s)", 10)
+	for i := 0; i < 2; i++ {
+		o := <-ch
+		fmt.Printf("DEMO %s returned %s after %v (no Set was ever called)\n", o.who, o.res, o.d.Round(10*time.Millisecond))
+	}
 }
